@@ -561,7 +561,9 @@ def cli_one(job):
     tb = False
     with contextlib.redirect_stdout(out), contextlib.redirect_stderr(err):
         try:
-            main.main(args=["eems-netcdf" if netcdf else "eems-csv", os.path.join(wd, "model.mpt")], standalone_mode=False)
+            # programs over the probe library go through the tool with that library requested by -l (the option's path to Program)
+            extra_opts = ["-l", "vextra"] if name.startswith("matrix-l/") else []
+            main.main(args=extra_opts + ["eems-netcdf" if netcdf else "eems-csv", os.path.join(wd, "model.mpt")], standalone_mode=False)
         except SystemExit as e:
             code = e.code if isinstance(e.code, int) else (0 if e.code is None else 1)
         except BaseException as e:
@@ -702,12 +704,24 @@ def check_C13(tier):
     for k in range(core.SEED % step, len(res), step):
         rec, src = res[k]
         pr = progs[jobs[k][0] // max(1, len(res) // len(progs))]
-        if pr["tcmd"] in ("Extras", "NotAgain"):        # the command-line tool only knows the built-in libraries
-            continue
-        cjobs.append((len(cjobs), "matrix/%s/%s" % (pr["tcmd"], pr["fault"][0]), src, {}, False))
+        # the command-line tool only knows the built-in libraries: commands of the probe library need "-l vextra"
+        kind = "matrix-l" if pr["tcmd"] in ("Extras", "NotAgain") else "matrix"
+        cjobs.append((len(cjobs), "%s/%s/%s" % (kind, pr["tcmd"], pr["fault"][0]), src, {}, False))
+    # ... and every (sampled or not) program built around a probe-library command, so that the -l path is never left to the sampling step
+    seen = {j[2] for j in cjobs}
+    for k in range(len(res)):
+        pr = progs[jobs[k][0] // max(1, len(res) // len(progs))]
+        if pr["tcmd"] in ("Extras", "NotAgain") and res[k][1] not in seen and (tier == "thorough" or k % 7 == core.SEED % 7):
+            seen.add(res[k][1])
+            cjobs.append((len(cjobs), "matrix-l/%s/%s" % (pr["tcmd"], pr["fault"][0]), res[k][1], {}, False))
     for name, src, extra in RUNTIME_SCENARIOS:
         cjobs.append((len(cjobs), name, src, extra, False))
     recs = run_cli(chk, "C13", cjobs, libs, {"C13"})
+    chk.cov["cli_runs_with_library_option"] = sum(1 for j in cjobs if j[1].startswith("matrix-l/"))
+    chk.cov["cli_runs_with_library_option_succeeding"] = sum(1 for r in recs if r["name"].startswith("matrix-l/") and r["outcome"] == "ok")
+    if not chk.cov["cli_runs_with_library_option_succeeding"]:
+        sys.stderr.write("MACHINERY FAILURE: no successful CLI run with -l\n")
+        sys.exit(2)
     text_fuzz(chk, 3000 if tier == "quick" else 60000)
     for r in recs:
         if r["name"] in ("mixed-shapes-1d", "csv-non-numeric", "matrix") or len(chk.cov["samples"]) < 2:
